@@ -171,6 +171,7 @@ PROPS.update({
             "all four front-ends": lambda m: keys(m, "front") == 4,
             ">= 20000 split encodes compared": lambda m: m["evaluations"] >= 20000,
             "partial-frame cases on 3 front-ends": lambda m: keys(m, "partial_frame_front") == 3,
+            ">= 50 channel-writer histories with refused calls": lambda m: h(m, "refused_call_histories") >= 50,
         },
     },
     "C09": {
